@@ -164,7 +164,7 @@ pub fn scripted_closure<'a>(
         let r = (|| -> io::Result<()> {
             if let Some(kind) = failed {
                 if !after_write {
-                    return Err(io::Error::new(kind.to_io(), "injected closure fault"));
+                    return Err(kind.make("injected closure fault"));
                 }
             }
             let entry: &[u8] =
@@ -181,10 +181,7 @@ pub fn scripted_closure<'a>(
             }
             if let Some(kind) = failed {
                 closure_failed_after_write(&w2, kind);
-                return Err(io::Error::new(
-                    kind.to_io(),
-                    "injected closure fault (after write)",
-                ));
+                return Err(kind.make("injected closure fault (after write)"));
             }
             Ok(())
         })();
